@@ -65,6 +65,11 @@ def run(ctx):
     ctx.floor('K-CODEC', 2)
     ctx.guard('H-CUR', 'cursor', hrules.run_h, ctx, w, [NOTES, SEC, SEG],
               only={SEC: ('NoteSection.', 'StabSection.'), SEG: ('NoteSegment.',)})
+    # enumeration answers must not come out of a half-filled memo (shared with C10)
+    from sa import partial
+    ctx.rule('J-PARTIAL', 'the notes of an extent are never served from a container that was filled between yields or one entry per query')
+    ctx.guard('J-PARTIAL', 'partial containers', partial.check_partial, ctx, w, 'J-PARTIAL', [NOTES, SEC, SEG])
+    ctx.floor('J-PARTIAL', 1)
 
 
 def check_prpsinfo(ctx, w, thorough):
